@@ -90,7 +90,13 @@ pub fn run(op: &str, e: &Value, ctx: &mut Ctx) -> Result<Value, String> {
             };
             set_ed(ctx, e, r)
         }
-        "ed.neg" | "ed.neg_owned" | "ed.double" | "ed.mul_by_cofactor" | "ed.mul_by_pow_2" | "ed.copy" | "ed.recode" => {
+        "ed.recode" => {
+            // through the wire format and back: the same element in a fresh representation (None if the encoding of a point
+            // the library itself produced does not decode - judged by the specification, which expects Some)
+            let a = ed_arg(ctx, inp(e, 0)?)?;
+            set_opt(ctx, e, a.compress().decompress())
+        }
+        "ed.neg" | "ed.neg_owned" | "ed.double" | "ed.mul_by_cofactor" | "ed.mul_by_pow_2" | "ed.copy" => {
             let a = ed_arg(ctx, inp(e, 0)?)?;
             let r = match op {
                 "ed.neg" => -&a,
@@ -98,8 +104,6 @@ pub fn run(op: &str, e: &Value, ctx: &mut Ctx) -> Result<Value, String> {
                 "ed.double" => hook::edwards_double(&a),
                 "ed.mul_by_cofactor" => a.mul_by_cofactor(),
                 "ed.copy" => a,
-                // through the wire format and back: the same element in a fresh representation
-                "ed.recode" => a.compress().decompress().ok_or("a compressed point did not decompress")?,
                 _ => hook::edwards_mul_by_pow_2(&a, uint(e, "k")? as u32),
             };
             set_ed(ctx, e, r)
